@@ -98,7 +98,11 @@ class Rig:
             uc = self.n % 5 != 3
             if not uc:
                 self.ctx.count("messages_with_unicast_flag_clear")
-            data = net.sd_bytes(list(entries), sid, reboot=flag, unicast=uc)
+            # every seventh message is padded behind its option array (decodable as it is): it takes part like any other
+            pad = (b"\x00", b"\x00\x00\x00", b"\xff\x00")[self.n % 3] if self.n % 7 == 5 else b""
+            if pad:
+                self.ctx.count("messages_padded_behind_the_option_array")
+            data = net.sd_bytes(list(entries), sid, reboot=flag, unicast=uc, pad=pad)
         self.h.at(self.t, self.prot.datagram_received, data, sender, multicast)
         self.h.run(self.t)
         self.n += 1
